@@ -212,6 +212,12 @@ func slotInfixFn(p *Parser, left ast.Expression) ast.Expression { return nil }
 //@   ensures [errors-grow@C11] isPrefixErr(old(p.errors), p.errors)
 //@   ensures [measure@C11] parserMeasure(p) <= old(parserMeasure(p))
 
+// Errors are reported at six sites only (ExpectToken, ExpectSemicolonASI -- the one mode-dependent site --, the unclosed
+// block, the missing prefix function, the two numeric conversions); every other parse function reports none of its own,
+// so a parser mode cannot come to matter anywhere else.
+//@ group errorSites
+//@   ensures [error.sites@C13,C11] ncalls("(*Parser).AddError") == 0 && ncalls("(*Parser).AddErrorAtToken") == 0
+
 // No parse step other than the three bracketing ones changes the context stack around its sub-steps.
 //@ group ctxStable
 //@   atcall * [ctx.stable@C16] sameCtx(p.contextStack, old(p.contextStack))
@@ -310,14 +316,14 @@ func lemma_parseFrame_trans(p *Parser) {
 // ---- token pump and errors ----
 
 //@ func (p *Parser) NextToken()
-//@   props C11 C16 C04 C01 C15
+//@   props C11 C16 C04 C01 C15 C13 C02
 //@   requires [lexer] p.lexer != nil && lexer.LexInv(p.lexer)
 //@   modifies p.CurrentToken, p.PeekToken
 //@   modifies p.lexer.position, p.lexer.readPosition, p.lexer.CurrentChar, p.lexer.Line, p.lexer.Column, p.lexer.hadNewlineBefore, p.lexer.leadingComments
 //@   ensures [lexer] lexer.LexInv(p.lexer)
 //@   ensures [shift] eq(p.CurrentToken, old(p.PeekToken))
 //@   ensures [origin] lexer.LexTok(p.PeekToken)
-//@   ensures [lookahead@C01,C15] ncalls("(*Lexer).NextToken") == 1 && eq(p.PeekToken, callResult[token.Token]("(*Lexer).NextToken", 0))
+//@   ensures [lookahead@C01,C15,C13,C02] ncalls("(*Lexer).NextToken") == 1 && eq(p.PeekToken, callResult[token.Token]("(*Lexer).NextToken", 0))
 //@   ensures [measure@C11] implies(old(implies(p.PeekToken.Type == token.EOF, lexer.LexPos(p.lexer) == len(lexer.LexInput(p.lexer)))), parserMeasure(p) <= old(parserMeasure(p))-b2i(old(p.CurrentToken.Type) != token.EOF))
 //@   ensures [eof.sticky@C11] implies(old(implies(p.PeekToken.Type == token.EOF, lexer.LexPos(p.lexer) == len(lexer.LexInput(p.lexer)))), eofSticky(p))
 
@@ -345,15 +351,15 @@ func lemma_parseFrame_trans(p *Parser) {
 // terminate without consuming; after a line break a token that can only begin a statement terminates; on the same
 // line anything else is an error in strict mode. Tolerant mode never records an error here and always continues.
 //@ func (p *Parser) ExpectSemicolonASI()
-//@   props C11 C16 C13 C02
+//@   props C11 C16 C13 C02 C06
 //@   use parseFrame ctxStable
 //@   ensures [fail] implies(!result, len(p.errors) == len(old(p.errors))+1)
 //@   ensures [ok] implies(result, len(p.errors) == len(old(p.errors)))
 //@   ensures [tolerant@C13] implies(p.tolerantMode, result && len(p.errors) == len(old(p.errors)))
 //@   ensures [explicit@C02] implies(old(p.PeekToken.Type) == token.SEMICOLON, result && eq(p.CurrentToken, old(p.PeekToken)))
-//@   ensures [virtual@C02] implies(old(p.PeekToken.Type) != token.SEMICOLON, eq(p.CurrentToken, old(p.CurrentToken)) && eq(p.PeekToken, old(p.PeekToken)) && lexer.LexPos(p.lexer) == old(lexer.LexPos(p.lexer)))
-//@   ensures [asi.end@C02] implies(old(p.PeekToken.Type) == token.EOF || old(p.PeekToken.Type) == token.RBRACE, result)
-//@   ensures [asi.newline@C02] implies(old(p.PeekToken.AfterNewline) && startsStatement(old(p.PeekToken.Type)), result)
+//@   ensures [virtual@C02,C06] implies(old(p.PeekToken.Type) != token.SEMICOLON, eq(p.CurrentToken, old(p.CurrentToken)) && eq(p.PeekToken, old(p.PeekToken)) && lexer.LexPos(p.lexer) == old(lexer.LexPos(p.lexer)))
+//@   ensures [asi.end@C02,C06] implies(old(p.PeekToken.Type) == token.EOF || old(p.PeekToken.Type) == token.RBRACE, result)
+//@   ensures [asi.newline@C02,C06] implies(old(p.PeekToken.AfterNewline) && startsStatement(old(p.PeekToken.Type)), result)
 //@   ensures [asi.smart@C13] implies(p.smartSemicolons && old(p.PeekToken.AfterNewline) && (old(p.PeekToken.Type) == token.LPAREN || old(p.PeekToken.Type) == token.LBRACKET), result && len(p.errors) == len(old(p.errors)))
 //@   ensures [asi.sameline@C02,C13] implies(!p.tolerantMode && !old(p.PeekToken.AfterNewline) && old(p.PeekToken.Type) != token.SEMICOLON && old(p.PeekToken.Type) != token.EOF && old(p.PeekToken.Type) != token.RBRACE, !result)
 
@@ -375,20 +381,20 @@ func lemma_parseFrame_trans(p *Parser) {
 //@   ensures [result@C02,C04] result == callResult[ast.Expression]("(*Parser).ParseRemainingExpressionWithPrecedence", 0)
 
 //@ func (p *Parser) ParseLetStatement()
-//@   props C11 C16 C01
-//@   use parseFrame ctxStable viaSlot
+//@   props C11 C16 C01 C13
+//@   use parseFrame ctxStable viaSlot errorSites
 //@   ensures [wf@C11] implies(len(p.errors) == len(old(p.errors)) && result != nil, result.Name != nil && (result.Value == nil || !isNil(result.Value)))
 //@   ensures [node@C01,C08,C15] implies(result != nil, eq(result.Token, old(p.CurrentToken)) && result.Name != nil && result.Name.Value == result.Name.Token.Literal)
 //@   ensures [err-on-nil] implies(result == nil, len(p.errors) > len(old(p.errors)))
 
 //@ func (p *Parser) ParseLetExpression()
-//@   props C11 C16
-//@   use parseFrame ctxStable exprResult
+//@   props C11 C16 C13
+//@   use parseFrame ctxStable exprResult errorSites
 //@   ensures [wf@C11] implies(len(p.errors) == len(old(p.errors)) && !isNil(result), isType[*ast.LetExpression](result) && result.(*ast.LetExpression).Name != nil && (result.(*ast.LetExpression).Value == nil || !isNil(result.(*ast.LetExpression).Value)))
 
 //@ func (p *Parser) ParseFunctionStatement()
-//@   props C11 C16 C01
-//@   use parseFrame viaSlot
+//@   props C11 C16 C01 C13
+//@   use parseFrame viaSlot errorSites
 //@   ensures [wf@C11] implies(len(p.errors) == len(old(p.errors)) && result != nil, result.Name != nil && result.Body != nil && forall(0, len(result.Parameters), func(k int) bool { return result.Parameters[k] != nil }))
 //@   ensures [node@C01,C08,C15] implies(result != nil, eq(result.Token, old(p.CurrentToken)) && result.Name != nil && result.Name.Value == result.Name.Token.Literal && result.Body == callResult[*ast.BlockStatement]("(*Parser).ParseBlockStatement", 0))
 //@   atcall (*Parser).ParseBlockStatement [ctx.function@C16] sameCtx(p.contextStack, push(old(p.contextStack), FunctionContext))
@@ -397,8 +403,8 @@ func lemma_parseFrame_trans(p *Parser) {
 //@   ensures [err-on-nil] implies(result == nil, len(p.errors) > len(old(p.errors)))
 
 //@ func (p *Parser) ParseFunctionParameters()
-//@   props C11 C16
-//@   use parseFrame ctxStable
+//@   props C11 C16 C13
+//@   use parseFrame ctxStable errorSites
 //@   ensures [wf@C11] forall(0, len(result), func(k int) bool { return result[k] != nil })
 //@   loop 1 invariant [wf@C11] forall(0, len(identifiers), func(k int) bool { return identifiers[k] != nil })
 //@   loop 1 invariant [frame] parserInv(p) && sameCtx(p.contextStack, old(p.contextStack)) && p.currentExpressionPrecedence == old(p.currentExpressionPrecedence) && isPrefixErr(old(p.errors), p.errors) && parserMeasure(p) <= old(parserMeasure(p))
@@ -406,36 +412,36 @@ func lemma_parseFrame_trans(p *Parser) {
 
 // Restricted production (ECMA-262 12.10.1): no operand is parsed when the next token is on a new line.
 //@ func (p *Parser) ParseReturnStatement()
-//@   props C11 C16 C02
-//@   use parseFrame ctxStable viaSlot
+//@   props C11 C16 C02 C13
+//@   use parseFrame ctxStable viaSlot errorSites
 //@   ensures [wf@C11] implies(len(p.errors) == len(old(p.errors)) && result != nil, result.ReturnValue == nil || !isNil(result.ReturnValue))
 //@   ensures [restricted@C02] implies(old(p.PeekToken.AfterNewline), ncalls("(*Parser).ParseExpression") == 0)
 //@   ensures [operand@C02] implies(!old(p.PeekToken.AfterNewline) && old(p.PeekToken.Type) != token.SEMICOLON && old(p.PeekToken.Type) != token.EOF && old(p.PeekToken.Type) != token.RBRACE, ncalls("(*Parser).ParseExpression") == 1)
 //@   ensures [err-on-nil] implies(result == nil, len(p.errors) > len(old(p.errors)))
 
 //@ func (p *Parser) ParseIfStatement()
-//@   props C11 C16 C01
-//@   use parseFrame ctxStable viaSlot
+//@   props C11 C16 C01 C13
+//@   use parseFrame ctxStable viaSlot errorSites
 //@   ensures [wf@C11] implies(len(p.errors) == len(old(p.errors)) && result != nil, !isNil(result.Condition) && !isNil(result.ThenBranch) && (result.ElseBranch == nil || !isNil(result.ElseBranch)))
 //@   ensures [node@C01,C08,C15] implies(result != nil, eq(result.Token, old(p.CurrentToken)))
 //@   ensures [err-on-nil] implies(result == nil, len(p.errors) > len(old(p.errors)))
 
 //@ func (p *Parser) ParseWhileStatement()
-//@   props C11 C16 C01
-//@   use parseFrame ctxStable viaSlot
+//@   props C11 C16 C01 C13
+//@   use parseFrame ctxStable viaSlot errorSites
 //@   ensures [wf@C11] implies(len(p.errors) == len(old(p.errors)) && result != nil, !isNil(result.Condition) && !isNil(result.Body))
 //@   ensures [node@C01,C08,C15] implies(result != nil, eq(result.Token, old(p.CurrentToken)))
 //@   ensures [err-on-nil] implies(result == nil, len(p.errors) > len(old(p.errors)))
 
 //@ func (p *Parser) ParseForStatement()
-//@   props C11 C16 C01
-//@   use parseFrame ctxStable viaSlot
+//@   props C11 C16 C01 C13
+//@   use parseFrame ctxStable viaSlot errorSites
 //@   ensures [wf@C11] implies(len(p.errors) == len(old(p.errors)) && result != nil, (result.Init == nil || !isNil(result.Init)) && (result.Condition == nil || !isNil(result.Condition)) && (result.Update == nil || !isNil(result.Update)) && !isNil(result.Body))
 //@   ensures [node@C01,C08,C15] implies(result != nil, eq(result.Token, old(p.CurrentToken)))
 //@   ensures [err-on-nil] implies(result == nil, len(p.errors) > len(old(p.errors)))
 
 //@ func (p *Parser) ParseBlockStatement()
-//@   props C11 C16 C13 C01 C15
+//@   props C11 C16 C13 C01 C15 C02
 //@   use parseFrame viaSlot
 //@   atcall slotStmtFn [ctx.block@C16] sameCtx(p.contextStack, push(old(p.contextStack), BlockContext))
 //@   loop 1 invariant [frame] parserInv(p) && sameCtx(p.contextStack, push(old(p.contextStack), BlockContext)) && p.currentExpressionPrecedence == old(p.currentExpressionPrecedence) && isPrefixErr(old(p.errors), p.errors) && parserMeasure(p) <= old(parserMeasure(p))
@@ -444,15 +450,15 @@ func lemma_parseFrame_trans(p *Parser) {
 //@   ensures [nonnil] result != nil
 //@   ensures [no-nil-entries@C11] forall(0, len(result.Statements), func(i int) bool { return !isNil(result.Statements[i]) })
 //@   ensures [unclosed@C13,C11] ncalls("(*Parser).AddError") == ite(!p.tolerantMode && p.CurrentToken.Type != token.RBRACE, 1, 0)
-//@   ensures [rbrace@C01,C15] eq(result.RBrace, p.CurrentToken)
+//@   ensures [rbrace@C01,C15,C02] eq(result.RBrace, p.CurrentToken)
 
 //@ func (p *Parser) ParseStatement()
-//@   props C11 C16
-//@   use parseFrame stmtResult ctxStable viaSlot
+//@   props C11 C16 C13
+//@   use parseFrame stmtResult ctxStable viaSlot errorSites
 
 //@ func (p *Parser) ParseExpressionStatement()
-//@   props C11 C16
-//@   use parseFrame ctxStable viaSlot
+//@   props C11 C16 C13
+//@   use parseFrame ctxStable viaSlot errorSites
 //@   ensures [wf@C11] implies(len(p.errors) == len(old(p.errors)) && result != nil, !isNil(result.Expression))
 //@   ensures [err-on-nil] implies(result == nil, len(p.errors) > len(old(p.errors)))
 
@@ -464,20 +470,20 @@ func lemma_parseFrame_trans(p *Parser) {
 //@   atcall slotPrefixFn [first-token@C04] eq(p.CurrentToken, old(p.CurrentToken)) && eq(p.PeekToken, old(p.PeekToken))
 
 //@ func (p *Parser) ParseInfixExpression(left)
-//@   props C11 C16 C02
-//@   use parseFrame ctxStable infixResult
+//@   props C11 C16 C02 C13
+//@   use parseFrame ctxStable infixResult errorSites
 //@   ensures [no-infix@C02] implies(!old(has(p.infixParseFns, p.PeekToken.Type)), result == left && eq(p.PeekToken, old(p.PeekToken)))
 //@   ensures [progress@C11] implies(old(p.infixParseFns[p.PeekToken.Type] != nil) && old(p.PeekToken.Type) != token.EOF, parserMeasure(p) < old(parserMeasure(p)))
 //@   atcall slotInfixFn [operator-current@C02] eq(p.CurrentToken, old(p.PeekToken)) && arg_left == left
 
 //@ func (p *Parser) ParseExpression()
-//@   props C11 C16 C02
-//@   use parseFrame ctxStable exprResult viaSlot
+//@   props C11 C16 C02 C13
+//@   use parseFrame ctxStable exprResult viaSlot errorSites
 //@   ensures [level@C02] ncalls("slotExprFn") == 1 && callArg[int]("slotExprFn", 0, 1) == LOWEST && callArg[*Parser]("slotExprFn", 0, 0) == p && result == callResult[ast.Expression]("slotExprFn", 0)
 
 //@ func (p *Parser) ParseExpressionWithPrecedence(precedence)
-//@   props C11 C16 C02
-//@   use parseFrame ctxStable exprResult viaSlot
+//@   props C11 C16 C02 C13
+//@   use parseFrame ctxStable exprResult viaSlot errorSites
 //@   ensures [level@C02] ncalls("slotExprFn") == 1 && callArg[int]("slotExprFn", 0, 1) == precedence && callArg[*Parser]("slotExprFn", 0, 0) == p && result == callResult[ast.Expression]("slotExprFn", 0)
 
 // The climbing loop. It continues only while the next token binds strictly tighter than the requested level (left
@@ -485,7 +491,7 @@ func lemma_parseFrame_trans(p *Parser) {
 // line break before '++'/'--' (restricted production); it stops only when one of those conditions fails.
 //@ func (p *Parser) ParseRemainingExpressionWithPrecedence(left, precedence)
 //@   props C11 C16 C13 C02
-//@   use parseFrame ctxStable infixResult
+//@   use parseFrame ctxStable infixResult errorSites
 //@   atcall (*Parser).ParseInfixExpression [climb.strict@C02] p.PeekToken.Type != token.SEMICOLON && precedence < specLevel(p.precedences, p.PeekToken.Type)
 //@   atcall (*Parser).ParseInfixExpression [smart.nocut@C13] !(p.smartSemicolons && p.PeekToken.AfterNewline && (p.PeekToken.Type == token.LPAREN || p.PeekToken.Type == token.LBRACKET))
 //@   atcall (*Parser).ParseInfixExpression [restricted.postfix@C02,C13] !(p.PeekToken.AfterNewline && (p.PeekToken.Type == token.INCREMENT || p.PeekToken.Type == token.DECREMENT))
@@ -497,13 +503,13 @@ func lemma_parseFrame_trans(p *Parser) {
 
 // Re-entrant continuation for expression interceptors: the same loop, at the binding power the innermost wrapper published.
 //@ func (p *Parser) ParseRemainingExpression(left)
-//@   props C11 C16 C04
-//@   use parseFrame ctxStable infixResult
+//@   props C11 C16 C04 C13
+//@   use parseFrame ctxStable infixResult errorSites
 //@   ensures [same-level@C04] ncalls("(*Parser).ParseRemainingExpressionWithPrecedence") == 1 && callArg[int]("(*Parser).ParseRemainingExpressionWithPrecedence", 0, 2) == old(p.currentExpressionPrecedence) && callArg[ast.Expression]("(*Parser).ParseRemainingExpressionWithPrecedence", 0, 1) == left && result == callResult[ast.Expression]("(*Parser).ParseRemainingExpressionWithPrecedence", 0)
 
 //@ func (p *Parser) ParseIdentifier()
-//@   props C11 C16 C01 C07
-//@   use parseFrame ctxStable exprResult
+//@   props C11 C16 C01 C07 C13
+//@   use parseFrame ctxStable exprResult errorSites
 //@   ensures [node@C01,C07,C08,C15] isType[*ast.Identifier](result) && !isNil(result) && eq(result.(*ast.Identifier).Token, old(p.CurrentToken)) && result.(*ast.Identifier).Value == old(p.CurrentToken.Literal)
 //@   ensures [no-token@C01] ncalls("(*Parser).NextToken") == 0 && lexer.LexPos(p.lexer) == old(lexer.LexPos(p.lexer))
 
@@ -520,59 +526,59 @@ func lemma_parseFrame_trans(p *Parser) {
 //@   ensures [no-token@C01] ncalls("(*Parser).NextToken") == 0 && lexer.LexPos(p.lexer) == old(lexer.LexPos(p.lexer))
 
 //@ func (p *Parser) ParseStringLiteral()
-//@   props C11 C16 C01 C07
-//@   use parseFrame ctxStable exprResult
+//@   props C11 C16 C01 C07 C13
+//@   use parseFrame ctxStable exprResult errorSites
 //@   ensures [node@C01,C07,C08,C15] isType[*ast.StringLiteral](result) && !isNil(result) && eq(result.(*ast.StringLiteral).Token, old(p.CurrentToken)) && result.(*ast.StringLiteral).Value == old(p.CurrentToken.Literal)
 //@   ensures [no-token@C01] ncalls("(*Parser).NextToken") == 0 && lexer.LexPos(p.lexer) == old(lexer.LexPos(p.lexer))
 
 //@ func (p *Parser) ParseMultiStringLiteral()
-//@   props C11 C16 C01 C07
-//@   use parseFrame ctxStable exprResult
+//@   props C11 C16 C01 C07 C13
+//@   use parseFrame ctxStable exprResult errorSites
 //@   ensures [node@C01,C07,C08,C15] isType[*ast.MultiStringLiteral](result) && !isNil(result) && eq(result.(*ast.MultiStringLiteral).Token, old(p.CurrentToken)) && result.(*ast.MultiStringLiteral).Value == old(p.CurrentToken.Literal)
 //@   ensures [no-token@C01] ncalls("(*Parser).NextToken") == 0 && lexer.LexPos(p.lexer) == old(lexer.LexPos(p.lexer))
 
 //@ func (p *Parser) ParseBooleanLiteral()
-//@   props C11 C16 C01 C07
-//@   use parseFrame ctxStable exprResult
+//@   props C11 C16 C01 C07 C13
+//@   use parseFrame ctxStable exprResult errorSites
 //@   ensures [node@C01,C07,C08,C15] isType[*ast.BooleanLiteral](result) && !isNil(result) && eq(result.(*ast.BooleanLiteral).Token, old(p.CurrentToken)) && result.(*ast.BooleanLiteral).Value == (old(p.CurrentToken.Type) == token.TRUE)
 //@   ensures [no-token@C01] ncalls("(*Parser).NextToken") == 0 && lexer.LexPos(p.lexer) == old(lexer.LexPos(p.lexer))
 
 //@ func (p *Parser) ParseNullLiteral()
-//@   props C11 C16 C01 C07
-//@   use parseFrame ctxStable exprResult
+//@   props C11 C16 C01 C07 C13
+//@   use parseFrame ctxStable exprResult errorSites
 //@   ensures [node@C01,C07,C08,C15] isType[*ast.NullLiteral](result) && !isNil(result) && eq(result.(*ast.NullLiteral).Token, old(p.CurrentToken))
 //@   ensures [no-token@C01] ncalls("(*Parser).NextToken") == 0 && lexer.LexPos(p.lexer) == old(lexer.LexPos(p.lexer))
 
 //@ func (p *Parser) ParseUnaryExpression()
-//@   props C11 C16 C02 C01
-//@   use parseFrame ctxStable exprResult viaSlot
+//@   props C11 C16 C02 C01 C13
+//@   use parseFrame ctxStable exprResult viaSlot errorSites
 //@   ensures [wf@C11] implies(len(p.errors) == len(old(p.errors)), !isNil(result.(*ast.UnaryExpression).Right))
 //@   ensures [operand.level@C02] ncalls("(*Parser).NextToken") == 1 && ncalls("slotExprFn") == 1 && callOrder("(*Parser).NextToken", 0, "slotExprFn", 0) && callArg[int]("slotExprFn", 0, 1) == UNARY && callArg[*Parser]("slotExprFn", 0, 0) == p
 //@   ensures [node@C01,C08,C15] isType[*ast.UnaryExpression](result) && !isNil(result) && eq(result.(*ast.UnaryExpression).Token, old(p.CurrentToken)) && result.(*ast.UnaryExpression).Operator == old(p.CurrentToken.Literal) && result.(*ast.UnaryExpression).Right == callResult[ast.Expression]("slotExprFn", 0)
 
 //@ func (p *Parser) ParsePostfixExpression(left)
-//@   props C11 C16 C01 C02
-//@   use parseFrame ctxStable exprResult infixResult
+//@   props C11 C16 C01 C02 C13
+//@   use parseFrame ctxStable exprResult infixResult errorSites
 //@   ensures [wf@C11] implies(!isNil(left), !isNil(result.(*ast.PostfixExpression).Left))
 //@   ensures [node@C01,C08,C15] isType[*ast.PostfixExpression](result) && !isNil(result) && eq(result.(*ast.PostfixExpression).Token, old(p.CurrentToken)) && result.(*ast.PostfixExpression).Operator == old(p.CurrentToken.Literal) && result.(*ast.PostfixExpression).Left == left
 //@   ensures [no-token@C02] ncalls("(*Parser).NextToken") == 0 && ncalls("slotExprFn") == 0 && lexer.LexPos(p.lexer) == old(lexer.LexPos(p.lexer))
 
 //@ func (p *Parser) ParseGroupedExpression()
-//@   props C11 C16 C01 C02
-//@   use parseFrame ctxStable exprResult
+//@   props C11 C16 C01 C02 C13
+//@   use parseFrame ctxStable exprResult errorSites
 //@   ensures [wf@C11] implies(len(p.errors) == len(old(p.errors)) && !isNil(result), !isNil(result.(*ast.GroupedExpression).Expression))
 //@   ensures [inner.level@C02] ncalls("(*Parser).ParseExpression") == 1 && ncalls("slotExprFn") == 0
 //@   ensures [node@C01,C08,C15] implies(!isNil(result), isType[*ast.GroupedExpression](result) && eq(result.(*ast.GroupedExpression).Token, old(p.CurrentToken)) && result.(*ast.GroupedExpression).Expression == callResult[ast.Expression]("(*Parser).ParseExpression", 0) && eq(result.(*ast.GroupedExpression).RParen, p.CurrentToken) && p.CurrentToken.Type == token.RPAREN)
 
 //@ func (p *Parser) ParseArrayLiteral()
-//@   props C11 C16 C01
-//@   use parseFrame ctxStable exprResult
+//@   props C11 C16 C01 C13
+//@   use parseFrame ctxStable exprResult errorSites
 //@   ensures [wf@C11] implies(len(p.errors) == len(old(p.errors)), forall(0, len(result.(*ast.ArrayLiteral).Elements), func(k int) bool { return !isNil(result.(*ast.ArrayLiteral).Elements[k]) }))
 //@   ensures [node@C01,C08,C15] isType[*ast.ArrayLiteral](result) && !isNil(result) && eq(result.(*ast.ArrayLiteral).Token, old(p.CurrentToken)) && eq(result.(*ast.ArrayLiteral).RBracket, p.CurrentToken)
 
 //@ func (p *Parser) ParseObjectLiteral()
-//@   props C11 C16 C01
-//@   use parseFrame ctxStable exprResult
+//@   props C11 C16 C01 C13
+//@   use parseFrame ctxStable exprResult errorSites
 //@   ensures [wf@C11] implies(len(p.errors) == len(old(p.errors)) && !isNil(result), forall(0, len(result.(*ast.ObjectLiteral).Properties), func(k int) bool { return !isNil(result.(*ast.ObjectLiteral).Properties[k].Key) && !isNil(result.(*ast.ObjectLiteral).Properties[k].Value) }))
 //@   loop 1 invariant [wf@C11] implies(len(p.errors) == len(old(p.errors)), forall(0, len(obj.Properties), func(k int) bool { return !isNil(obj.Properties[k].Key) && !isNil(obj.Properties[k].Value) }))
 //@   ensures [node@C01,C08,C15] implies(!isNil(result), isType[*ast.ObjectLiteral](result) && eq(result.(*ast.ObjectLiteral).Token, old(p.CurrentToken)))
@@ -581,7 +587,7 @@ func lemma_parseFrame_trans(p *Parser) {
 
 //@ func (p *Parser) ParseFunctionExpression()
 //@   props C11 C16 C13 C01
-//@   use parseFrame exprResult viaSlot
+//@   use parseFrame exprResult viaSlot errorSites
 //@   ensures [wf@C11] implies(len(p.errors) == len(old(p.errors)) && !isNil(result), result.(*ast.FunctionExpression).Body != nil && forall(0, len(result.(*ast.FunctionExpression).Parameters), func(k int) bool { return result.(*ast.FunctionExpression).Parameters[k] != nil }))
 //@   ensures [node@C01,C08,C15] implies(!isNil(result), isType[*ast.FunctionExpression](result) && eq(result.(*ast.FunctionExpression).Token, old(p.CurrentToken)) && result.(*ast.FunctionExpression).Body == callResult[*ast.BlockStatement]("(*Parser).ParseBlockStatement", 0))
 //@   atcall (*Parser).ParseBlockStatement [ctx.function@C16] sameCtx(p.contextStack, push(old(p.contextStack), FunctionContext))
@@ -591,59 +597,59 @@ func lemma_parseFrame_trans(p *Parser) {
 // Binary operators are left associative: the right operand is parsed at the operator's own level, read from the
 // per-parser table while the operator is the current token.
 //@ func (p *Parser) ParseBinaryExpression(left)
-//@   props C11 C16 C02 C01 C05
-//@   use parseFrame ctxStable exprResult infixResult viaSlot
+//@   props C11 C16 C02 C01 C05 C13
+//@   use parseFrame ctxStable exprResult infixResult viaSlot errorSites
 //@   ensures [wf@C11] implies(len(p.errors) == len(old(p.errors)) && !isNil(left), !isNil(result.(*ast.BinaryExpression).Left) && !isNil(result.(*ast.BinaryExpression).Right))
 //@   ensures [operand.level@C02,C03,C05] ncalls("(*Parser).NextToken") == 1 && ncalls("slotExprFn") == 1 && callOrder("(*Parser).NextToken", 0, "slotExprFn", 0) && callArg[int]("slotExprFn", 0, 1) == specLevel(p.precedences, old(p.CurrentToken.Type)) && callArg[*Parser]("slotExprFn", 0, 0) == p
 //@   ensures [node@C01,C08,C15] isType[*ast.BinaryExpression](result) && !isNil(result) && eq(result.(*ast.BinaryExpression).Token, old(p.CurrentToken)) && result.(*ast.BinaryExpression).Operator == old(p.CurrentToken.Literal) && result.(*ast.BinaryExpression).Left == left && result.(*ast.BinaryExpression).Right == callResult[ast.Expression]("slotExprFn", 0)
 
 // Assignment is right associative: the value is parsed from the lowest level again.
 //@ func (p *Parser) ParseAssignmentExpression(left)
-//@   props C11 C16 C02 C01
-//@   use parseFrame ctxStable exprResult infixResult
+//@   props C11 C16 C02 C01 C13
+//@   use parseFrame ctxStable exprResult infixResult errorSites
 //@   ensures [wf@C11] implies(len(p.errors) == len(old(p.errors)) && !isNil(left), !isNil(result.(*ast.AssignmentExpression).Left) && !isNil(result.(*ast.AssignmentExpression).Value))
 //@   ensures [operand.level@C02,C03] ncalls("(*Parser).NextToken") == 1 && ncalls("(*Parser).ParseExpression") == 1 && ncalls("slotExprFn") == 0 && callOrder("(*Parser).NextToken", 0, "(*Parser).ParseExpression", 0)
 //@   ensures [node@C01,C08,C15] isType[*ast.AssignmentExpression](result) && !isNil(result) && eq(result.(*ast.AssignmentExpression).Token, old(p.CurrentToken)) && result.(*ast.AssignmentExpression).Left == left && result.(*ast.AssignmentExpression).Value == callResult[ast.Expression]("(*Parser).ParseExpression", 0)
 
 //@ func (p *Parser) ParseCompoundAssignmentExpression(left)
-//@   props C11 C16 C02 C01
-//@   use parseFrame ctxStable exprResult infixResult
+//@   props C11 C16 C02 C01 C13
+//@   use parseFrame ctxStable exprResult infixResult errorSites
 //@   ensures [wf@C11] implies(len(p.errors) == len(old(p.errors)) && !isNil(left), !isNil(result.(*ast.CompoundAssignmentExpression).Left) && !isNil(result.(*ast.CompoundAssignmentExpression).Value))
 //@   ensures [operand.level@C02,C03] ncalls("(*Parser).NextToken") == 1 && ncalls("(*Parser).ParseExpression") == 1 && ncalls("slotExprFn") == 0 && callOrder("(*Parser).NextToken", 0, "(*Parser).ParseExpression", 0)
 //@   ensures [node@C01,C08,C15] isType[*ast.CompoundAssignmentExpression](result) && !isNil(result) && eq(result.(*ast.CompoundAssignmentExpression).Token, old(p.CurrentToken)) && result.(*ast.CompoundAssignmentExpression).Left == left && result.(*ast.CompoundAssignmentExpression).Value == callResult[ast.Expression]("(*Parser).ParseExpression", 0)
 //@   ensures [operator@C01] implies(old(p.CurrentToken.Type) == token.PLUS_ASSIGN, result.(*ast.CompoundAssignmentExpression).Operator == "+") && implies(old(p.CurrentToken.Type) == token.MINUS_ASSIGN, result.(*ast.CompoundAssignmentExpression).Operator == "-")
 
 //@ func (p *Parser) ParseCallExpression(left)
-//@   props C11 C16 C01
-//@   use parseFrame ctxStable exprResult infixResult
+//@   props C11 C16 C01 C13
+//@   use parseFrame ctxStable exprResult infixResult errorSites
 //@   ensures [wf@C11] implies(len(p.errors) == len(old(p.errors)) && !isNil(left), !isNil(result.(*ast.CallExpression).Function) && forall(0, len(result.(*ast.CallExpression).Arguments), func(k int) bool { return !isNil(result.(*ast.CallExpression).Arguments[k]) }))
 //@   ensures [node@C01,C08,C15] isType[*ast.CallExpression](result) && !isNil(result) && eq(result.(*ast.CallExpression).Token, old(p.CurrentToken)) && result.(*ast.CallExpression).Function == left
 
 //@ func (p *Parser) ParseMemberExpression(left)
-//@   props C11 C16 C02 C01
-//@   use parseFrame ctxStable exprResult infixResult viaSlot
+//@   props C11 C16 C02 C01 C13
+//@   use parseFrame ctxStable exprResult infixResult viaSlot errorSites
 //@   ensures [wf@C11] implies(len(p.errors) == len(old(p.errors)) && !isNil(left), !isNil(result.(*ast.MemberExpression).Object) && !isNil(result.(*ast.MemberExpression).Property))
 //@   ensures [operand.level@C02] ncalls("(*Parser).NextToken") == 1 && ncalls("slotExprFn") == 1 && callOrder("(*Parser).NextToken", 0, "slotExprFn", 0) && callArg[int]("slotExprFn", 0, 1) == MEMBER && callArg[*Parser]("slotExprFn", 0, 0) == p
 //@   ensures [node@C01,C08,C15] isType[*ast.MemberExpression](result) && !isNil(result) && eq(result.(*ast.MemberExpression).Token, old(p.CurrentToken)) && result.(*ast.MemberExpression).Object == left && !result.(*ast.MemberExpression).Computed && result.(*ast.MemberExpression).Property == callResult[ast.Expression]("slotExprFn", 0)
 
 //@ func (p *Parser) ParseComputedMemberExpression(left)
-//@   props C11 C16 C02 C01
-//@   use parseFrame ctxStable exprResult infixResult
+//@   props C11 C16 C02 C01 C13
+//@   use parseFrame ctxStable exprResult infixResult errorSites
 //@   ensures [wf@C11] implies(len(p.errors) == len(old(p.errors)) && !isNil(left) && !isNil(result), !isNil(result.(*ast.MemberExpression).Object) && !isNil(result.(*ast.MemberExpression).Property))
 //@   ensures [operand.level@C02] ncalls("(*Parser).ParseExpression") == 1 && ncalls("slotExprFn") == 0
 //@   ensures [node@C01,C08,C15] implies(!isNil(result), isType[*ast.MemberExpression](result) && eq(result.(*ast.MemberExpression).Token, old(p.CurrentToken)) && result.(*ast.MemberExpression).Object == left && result.(*ast.MemberExpression).Computed && result.(*ast.MemberExpression).Property == callResult[ast.Expression]("(*Parser).ParseExpression", 0))
 
 //@ func (p *Parser) ParseExpressionList(end)
-//@   props C11 C16
-//@   use parseFrame ctxStable
+//@   props C11 C16 C13
+//@   use parseFrame ctxStable errorSites
 //@   ensures [wf@C11] implies(len(p.errors) == len(old(p.errors)), forall(0, len(result), func(k int) bool { return !isNil(result[k]) }))
 //@   loop 1 invariant [wf@C11] implies(len(p.errors) == len(old(p.errors)), forall(0, len(args), func(k int) bool { return !isNil(args[k]) }))
 //@   loop 1 invariant [frame] parserInv(p) && sameCtx(p.contextStack, old(p.contextStack)) && p.currentExpressionPrecedence == old(p.currentExpressionPrecedence) && isPrefixErr(old(p.errors), p.errors) && parserMeasure(p) <= old(parserMeasure(p))
 //@   loop 1 decreases parserMeasure(p)
 
 //@ func (p *Parser) ParseProgram()
-//@   props C11 C16
-//@   use parseFrame viaSlot
+//@   props C11 C16 C13
+//@   use parseFrame viaSlot errorSites
 //@   atcall slotStmtFn [ctx.stable@C16] sameCtx(p.contextStack, old(p.contextStack))
 //@   loop 1 invariant [frame] parserInv(p) && sameCtx(p.contextStack, old(p.contextStack)) && p.currentExpressionPrecedence == old(p.currentExpressionPrecedence) && isPrefixErr(old(p.errors), p.errors) && parserMeasure(p) <= old(parserMeasure(p))
 //@   loop 1 decreases parserMeasure(p) + b2i(p.CurrentToken.Type != token.EOF)
